@@ -28,6 +28,7 @@ import json
 import os
 import re
 import subprocess
+import time
 
 from vlib import *
 
@@ -437,7 +438,7 @@ def pay_keys_stream(c, examples):
         if isinstance(d.get("method"), dict) and "key" in d["method"]:
             pos.append(("method", "key"))
         for pth in pos:
-            gp = (d.get("$schema"), tuple("*" if isinstance(x, int) else x for x in pth))
+            gp = (d.get("$schema"), d.get("type"), tuple("*" if isinstance(x, int) else x for x in pth))
             if gp in seen and len(seen) > 6:
                 continue
             seen.add(gp)
@@ -455,7 +456,8 @@ def pay_keys_stream(c, examples):
         if verdict == "accepted" and shown < 3:
             shown += 1
             c.report("%s validates although the payment-means key `%s` at %s is not a published key nor an extension of one" % (name, f, "/".join(map(str, pth))),
-                     {"example": name, "path": list(pth), "value": f, "published_base_keys": base,
+                     {"example": name, "path": list(pth), "value": f, "published_base_keys": base, "document": m,
+                      "mutation": {"kind": "pay-key", "path": "/".join(map(str, pth)), "new": f},
                       "clause": "a document that passes validation only references defined codes, keys and rates"})
         elif verdict == "panic" and shown < 3:
             shown += 1
@@ -517,6 +519,99 @@ def rate_rule_stream(c, pub):
                      {"correspondence": "corr:C18:rate-rule", "case": ln}, no_input=True)
 
 
+def enum_members(short):
+    """top-level members of a document type that its published schema enumerates (oneOf of consts) and that are not reference
+    positions themselves: the document's `type` (bill/invoice, order, delivery, payment).  -> {member: [published values]}"""
+    out = {}
+    for name, pv in schema_members(short).items():
+        one = pv.get("oneOf") if isinstance(pv, dict) else None
+        if name.startswith("$") or not isinstance(one, list) or not one or not all(isinstance(x, dict) and "const" in x for x in one):
+            continue
+        out[name] = [x["const"] for x in one]
+    return out
+
+
+def variant_examples(c, valid, quick):
+    """every valid example x every OTHER published value of each enumerated member of its type (`type`: a payment as request /
+    advice / receipt, an invoice as proforma / credit-note ..., an order as quote ...): the renditions that still calculate
+    and validate are valid documents no example file shows.  quick: per (document type, member, value) the rendition with
+    the most reference positions + a seeded one; thorough: all.   -> [(name, json, view)]"""
+    cand = []
+    cache = {}
+    # quick: every example of the types with few examples (orders, deliveries, payments ...), of invoices the one with the most
+    # reference positions and a seeded sample of 40
+    inv = [i for i, e in enumerate(valid) if e[2][2] == "bill/invoice"]
+    skip = set()
+    if quick and len(inv) > 41:
+        best = max(inv, key=lambda i: len(positions(doc_of(valid[i][1]), valid[i][2])) if isinstance(doc_of(valid[i][1]), dict) else 0)
+        keep = set(c.rng.sample([i for i in inv if i != best], 40)) | {best}
+        skip = set(inv) - keep
+    for vi, (name, j, view) in enumerate(valid):
+        doc = doc_of(j)
+        if not isinstance(doc, dict) or vi in skip:
+            continue
+        if view[2] not in cache:
+            cache[view[2]] = enum_members(view[2])
+        for member, values in sorted(cache[view[2]].items()):
+            for v in values:
+                if v != doc.get(member):
+                    d = copy.deepcopy(j)
+                    doc_of(d)[member] = v
+                    cand.append(("%s#%s=%s" % (name, member, v), d, (view[2], member, v)))
+    groups = {}
+    for (name, d, grp), g in zip(cand, go_run([x[1] for x in cand])):
+        ok = g[0][0] == b"accepted" and g[1] == "calculated"
+        c.count("variants/%s/%s=%s/%s" % (grp[0], grp[1], grp[2], "valid" if ok else g[0][0].decode()), 1, name)
+        if ok:
+            view = decode_view(g[2])
+            groups.setdefault(grp, []).append((name, d, view))
+    out = []
+    for grp in sorted(groups):
+        l = groups[grp]
+        if quick and len(l) > 2:
+            best = max(l, key=lambda e: len(positions(doc_of(e[1]), e[2])))
+            l = [best] + c.rng.sample([e for e in l if e is not best], 1)
+        out += l
+    c.cov["variants"] = {"tried": len(cand), "valid": sum(len(v) for v in groups.values()), "swept": len(out),
+                         "groups": {"%s %s=%s" % g: len(v) for g, v in sorted(groups.items())}}
+    return out
+
+
+HEADER_KINDS = ("regime", "addon", "tag")
+
+
+def undefined_specs(c, pools, bases, quick, npos, full=None):
+    """(index, mutation) for every reference position of the bases x the UNDEFINED candidates of its kind (thorough: all candidates,
+    defined ones too).  quick: the written variants of the old value (letter case, padding) only at the header references
+    ($regime, $addons, $tags), and the positions of the other kinds only on the bases listed in `full` (all when None)"""
+    specs = []
+    for ei, (name, j, view) in enumerate(bases):
+        doc = doc_of(j)
+        if not isinstance(doc, dict):
+            continue
+        for kind, path, old, detail in positions(doc, view):
+            if quick and kind not in HEADER_KINDS and full is not None and ei not in full:
+                continue
+            npos[kind] = npos.get(kind, 0) + 1
+            for new, cls in candidates(c, pools, kind, old, detail, quick):
+                if quick and (cls in ("defined-other", "undefined-part") or (cls == "undefined-variant" and kind not in HEADER_KINDS)):
+                    continue
+                specs.append((ei, {"kind": kind, "class": cls, "path": path, "old": old, "new": new, "detail": detail}))
+        if view[2] in ("bill/invoice", "bill/order", "bill/delivery", "bill/payment") and not doc.get("$tags"):
+            specs.append((ei, {"kind": "tag", "class": "undefined", "path": "$tags/0", "old": "", "new": "zz-unknown", "detail": "inserted"}))
+    return specs
+
+
+def build_case(bases, ei, mut):
+    name, j, _ = bases[ei]
+    if mut["detail"] == "inserted":
+        d = copy.deepcopy(j)
+        doc_of(d)["$tags"] = [mut["new"]]
+    else:
+        d = apply_mutation(j, mut["kind"], mut["path"], mut["old"], mut["new"], mut["detail"])
+    return {"example": name, "mutation": mut, "document": d}
+
+
 def load_examples():
     p = subprocess.run([os.path.join(BIN, "vharness"), "examples", REPO], stdout=subprocess.PIPE, env=GOENV, timeout=300, text=True)
     out = []
@@ -531,10 +626,10 @@ def load_examples():
     return out
 
 
-def go_run(docs):
-    """-> [(verdict list, state, view or None)]"""
+def go_run(docs, op="run"):
+    """-> [(verdict list, state, view or None)] ; op `run` = parse, calculate, validate ; `vrun` = read and validate only"""
     res = []
-    for o in run_go(["c18 run " + w(json.dumps(d)) for d in docs]):
+    for o in run_go(["c18 %s %s" % (op, w(json.dumps(d))) for d in docs], min_shard=240):
         r = parse_wire(o)
         if is_err(r):
             res.append(([b"harness-error"] + r[0][1:], "", None))
@@ -548,7 +643,7 @@ def model_run(views, op="check"):
     """-> [(repaired, shipped, failing_repaired set, failing_shipped set)]"""
     s = lambda b: b.decode("utf-8", "replace")
     res = []
-    for o in run_oracle(["c18 %s %s" % (op, w(v)) for v in views]):
+    for o in run_oracle(["c18 %s %s" % (op, w(v)) for v in views], min_shard=240):
         r = parse_wire(o)
         if is_err(r):
             raise RuntimeError("oracle: " + o)
@@ -564,9 +659,44 @@ def note(c, what):
     d[what] = d.get(what, 0) + 1
 
 
-def judge(c, pub, cases, stats):
-    """cases: [dict(example, mutation, document)] ; runs Go, model, oracle; reports."""
-    go = go_run([x["document"] for x in cases])
+_MEMBERS = {}
+
+
+def schema_members(short):
+    """-> {member: its published schema} of the top-level members of a document type (data/schemas/<short>.json)"""
+    if short not in _MEMBERS:
+        try:
+            d = json.load(open(os.path.join(REPO, "data", "schemas", short + ".json")))
+            _MEMBERS[short] = d["$defs"][d["$ref"].rsplit("/", 1)[1]].get("properties") or {}
+        except (OSError, KeyError, ValueError, TypeError, AttributeError):
+            _MEMBERS[short] = {}
+    return _MEMBERS[short]
+
+
+def view_as_written(view, document):
+    """a document that is only read and validated is judged on what it SAYS: `$regime`, `$addons` and `$tags` are
+    taken from the text when they are written there (the read hooks of the library may rewrite or drop them before
+    validation sees them); every other reference is a plain typed member and is in the view as read"""
+    d = doc_of(document)
+    if not isinstance(d, dict):
+        return view
+    regime, addons, schema, tags, combos, exts, currencies, countries = view
+    members = schema_members(schema)        # a `$regime` written in a document whose type has no such member says nothing
+    if "$regime" in members and isinstance(d.get("$regime"), str):
+        regime = d["$regime"]
+    if "$addons" in members and isinstance(d.get("$addons"), list) and all(isinstance(a, str) for a in d["$addons"]):
+        addons = list(d["$addons"])
+    if "$tags" in members and isinstance(d.get("$tags"), list) and all(isinstance(a, str) for a in d["$tags"]):
+        tags = list(d["$tags"])
+    return (regime, addons, schema, tags, combos, exts, currencies, countries)
+
+
+def judge(c, pub, cases, stats, flow="build"):
+    """cases: [dict(example, mutation, document)] ; runs Go, model, oracle; reports.
+    flow `build`: parse -> calculate -> validate, judged on the calculated document;
+    flow `validate-only`: read -> validate, judged on the document as written."""
+    vo = flow == "validate-only"
+    go = go_run([x["document"] for x in cases], "vrun" if vo else "run")
     idx = [i for i, g in enumerate(go) if g[2] is not None]
     views = [go[i][2] for i in idx]
     m_code = dict(zip(idx, model_run(views, "check")))
@@ -578,14 +708,16 @@ def judge(c, pub, cases, stats):
         kind, cls = mut["kind"], mut["class"]
         st = stats.setdefault(kind, {}).setdefault(cls, {})
         st[verdict] = st.get(verdict, 0) + 1
-        c.count("%s/%s/%s" % (kind, cls, verdict), 1, (x["example"], mut["path"], mut["old"], mut["new"]))
+        c.count("%s%s/%s/%s" % ("validate-only/" if vo else "", kind, cls, verdict), 1, (flow, x["example"], mut["path"], mut["old"], mut["new"]))
+        if vo:
+            x = dict(x, flow=flow)
         if verdict == "harness-error":
             c.report("harness failure on a mutated document: %s" % g[0], {"machinery": "c18 run", "case": x}, no_input=True)
             continue
         if verdict == "panic":
             frame = g[0][2].decode() if len(g[0]) > 2 else ""
             fid = F_CURRENCY_PANIC if kind == "currency" and "currency.(*Def)" in frame else None
-            k = ("panic", frame)
+            k = ("panic", frame, flow)
             if not cls.startswith("undefined"):
                 # a crash on a DEFINED reference is not this property's subject (C14: no input crashes the library);
                 # it is listed in the evidence, not judged here
@@ -610,14 +742,38 @@ def judge(c, pub, cases, stats):
         # machinery: the extracted rules over the PUBLISHED tables and the python oracle implement the same
         # statement independently: they must name the same unresolved references on every view
         if pfr != U:
-            k = ("oracle", kind)
+            k = ("oracle", kind, flow)
             if reported.get(k, 0) < 2:
                 reported[k] = reported.get(k, 0) + 1
                 c.report("oracle disagreement: extracted rules over the published tables name %s, the python oracle %s" % (sorted(pfr - U), sorted(U - pfr)),
                          {"correspondence": "oracle:C18:model-vs-python", "case": x, "view": view}, no_input=True)
         shown = (mut["new"] in json.dumps(view)) if mut["new"] else True
         if not shown:
-            note(c, "replaced value not in the view of the calculated document (normalised away or recalculated)")
+            note(c, "replaced value not in the view of the %s document (normalised away or recalculated)" % ("read" if vo else "calculated"))
+        if vo:
+            # the subject of the verdict is the text that was handed in
+            view = view_as_written(view, x["document"])
+            Uw = pub.unresolved(view)
+            if Uw != U:
+                note(c, "validate-only: references as written differ from the references as read")
+            U = Uw
+            # reported: an invoice WITHOUT a regime (supplier of a country no regime covers; regimes/common/examples/invoice-zw.yaml) that
+            # is read and validated without calculation passes with an undefined `currency` ("QQQ", "usd"): bill.Invoice.ValidateWithContext
+            # puts validation.Skip after Required on the currency when there is no regime, and Skip also skips currency.Code.Validate
+            rl = {r for r in U if r[0] == "currency" and r[1] == "currency" and view[2] == "bill/invoice" and not view[0]}
+            if rl and verdict == "accepted":
+                note(c, "reported: regime-less invoice validated without calculation accepts an undefined currency")
+                if U == rl:
+                    continue
+                U = U - rl
+        if vo and verdict == "accepted" and not U and mut["new"] and cls in ("undefined", "undefined-variant", "undefined-first-part") \
+                and mut["new"] not in json.dumps(view) and (kind not in HEADER_KINDS or ("$" + kind + ("s" if kind != "regime" else "")) in schema_members(view[2])):
+            k = ("dropped", kind, cls)
+            if reported.get(k, 0) < 2:
+                reported[k] = reported.get(k, 0) + 1
+                c.report("read and validated without calculation (`gobl validate`): %s validates although the %s `%s` written at %s is not defined: it is "
+                         "dropped while the document is read and never validated (replaced `%s`)" % (x["example"], kind, mut["new"], mut["path"], mut["old"]),
+                         dict(x, implementation="accepted", direct=True, clause="a document that passes validation only references defined codes, keys and rates"))
         if verdict == "accepted":
             if U:
                 by = {}
@@ -625,11 +781,12 @@ def judge(c, pub, cases, stats):
                     by.setdefault(finding_for(view[2], ref), []).append(ref)
                 for fid, refs_ in by.items():
                     refs_.sort(key=lambda r: r[2] != mut["new"])      # the replaced value itself first
-                    k = ("P", fid, refs_[0][0], re.sub(r"\d+", "*", refs_[0][1]), kind, cls, refs_[0][2] == mut["new"])
+                    k = ("P", flow, fid, refs_[0][0], re.sub(r"\d+", "*", refs_[0][1]), kind, cls, refs_[0][2] == mut["new"])
                     if fid or reported.get(k, 0) < 2:
                         reported[k] = reported.get(k, 0) + 1
-                        in_code_only = [r for r in refs_ if r not in fr]
-                        c.report("%s validates although %s `%s` at %s does not resolve in the published definitions%s (replaced `%s` by `%s` at %s)" % (
+                        in_code_only = [r for r in refs_ if r not in fr and pub.unresolved(decode_view(g[2])) == U]
+                        c.report("%s%s validates although %s `%s` at %s does not resolve in the published definitions%s (replaced `%s` by `%s` at %s)" % (
+                                 "read and validated without calculation (`gobl validate`): " if vo else "",
                                  x["example"], {"ext-value": "the value given for extension"}.get(refs_[0][0], refs_[0][0]), refs_[0][2], refs_[0][1],
                                  " (it resolves in the in-code tables: code and published files differ, see C19)" if in_code_only else "",
                                  mut["old"], mut["new"], mut["path"]),
@@ -638,7 +795,7 @@ def judge(c, pub, cases, stats):
                                       clause="a document that passes validation only references defined codes, keys and rates"),
                                  finding_id=fid)
             elif not shp:
-                k = ("corr", kind)
+                k = ("corr", kind, flow)
                 if reported.get(k, 0) < 2:
                     reported[k] = reported.get(k, 0) + 1
                     c.report("correspondence broken: the implementation accepts a document the transcribed (as-shipped) rules reject (%s) while every reference resolves" % sorted(fs),
@@ -659,6 +816,7 @@ def judge(c, pub, cases, stats):
 
 def run(c):
     quick = c.tier == "quick"
+    c._c18_t0 = time.time()
     if not std_builds(c):
         return
     ok, out = translate()
@@ -781,9 +939,66 @@ def run(c):
         for x, g in list(zip(chunk, res))[:3]:
             c.sample({"example": x["example"], "mutation": x["mutation"], "implementation": [b.decode("utf-8", "replace") for b in g[0][:2]]}, limit=5)
     c.cov["verdicts"] = stats
+
+    # ---- renditions of the examples with another published value of an enumerated member (`type`) ----
+    t0 = time.time()
+    c.cov["seconds"] = {"sweep and before": round(t0 - c.__dict__.get("_c18_t0", t0), 1)}
+    variants = variant_examples(c, valid, quick)
+    vpos = {}
+    vstats = {}
+    vspecs = undefined_specs(c, pools, variants, quick, vpos)
+    for i in range(0, len(vspecs), 10000):
+        judge(c, pub, [dict(build_case(variants, ei, mut)) for ei, mut in vspecs[i:i + 10000]], vstats)
+    c.cov["variants"].update({"positions": vpos, "mutated_documents": len(vspecs), "verdicts": vstats})
+
+    c.cov["seconds"]["variants"] = round(time.time() - t0, 1)
+    t0 = time.time()
+    # ---- read-and-validate flow: the calculated bare documents, no calculation before validation ----
+    srcs = valid + variants
+    calc = run_go(["c18 calc " + w(json.dumps(j)) for _, j, _ in srcs])
+    bare = []
+    for (name, j, _), o in zip(srcs, calc):
+        r = parse_wire(o)
+        if is_err(r):
+            c.report("harness failure: `c18 calc` on the valid example %s: %s" % (name, o[:200]), {"machinery": "c18 calc", "example": name}, no_input=True)
+            break
+        try:
+            bare.append((name + " (calculated, bare)", json.loads(r[0][0])))
+        except ValueError:
+            pass
+    vo_valid = []
+    for (name, j), g in zip(bare, go_run([j for _, j in bare], "vrun")):
+        ok = g[0][0] == b"accepted"
+        c.count("validate-only/examples/" + g[0][0].decode(), 1, name)
+        if ok:
+            vo_valid.append((name, j, decode_view(g[2])))
+    vo_stats, vo_pos = {}, {}
+    judge(c, pub, [{"example": n, "document": j, "mutation": {"kind": "none", "class": "unchanged", "path": "", "old": "", "new": ""}} for n, j, _ in vo_valid],
+          vo_stats, flow="validate-only")
+    # quick: header references of every document; the typed members (validated by the same rules in both flows) on the richest
+    # document of each type and a seeded sample
+    full = set()
+    if quick:
+        by_schema = {}
+        for i, (n, j, v) in enumerate(vo_valid):
+            by_schema.setdefault(v[2], []).append(i)
+        for sch, l in by_schema.items():
+            full.add(max(l, key=lambda i: len(positions(doc_of(vo_valid[i][1]), vo_valid[i][2]))))
+        # documents no regime applies to are validated by other rules (Skip instead of the regime's): all of them
+        full |= {i for i, (n, j, v) in enumerate(vo_valid) if not v[0] and "$regime" in schema_members(v[2])}
+        rest = [i for i in range(len(vo_valid)) if i not in full]
+        full |= set(c.rng.sample(rest, min(len(rest), max(0, 30 - len(full)))))
+    vo_specs = undefined_specs(c, pools, vo_valid, quick, vo_pos, full if quick else None)
+    for i in range(0, len(vo_specs), 10000):
+        judge(c, pub, [build_case(vo_valid, ei, mut) for ei, mut in vo_specs[i:i + 10000]], vo_stats, flow="validate-only")
+    c.cov["validate_only"] = {"documents": len(bare), "valid": len(vo_valid), "positions": vo_pos, "mutated_documents": len(vo_specs), "verdicts": vo_stats}
+    c.cov["seconds"]["validate_only"] = round(time.time() - t0, 1)
+    if len(vo_valid) < len(bare) * 0.9:
+        c.report("only %d of %d calculated valid documents validate when read back without calculation" % (len(vo_valid), len(bare)),
+                 {"machinery": "validate-only examples"}, no_input=True)
     # failing inputs whose unresolved reference IS the replaced value are listed first
     c.violations.sort(key=lambda v: (v[2], not (isinstance(v[1], dict) and v[1].get("direct"))))
-    pay_keys_stream(c, examples)
+    pay_keys_stream(c, examples + [(n, j) for n, j, _ in variants])
     rate_rule_stream(c, pub)
     c.cov["rule"] = ("every example file of the repository that parses, calculates and validates (inputs and outputs; "
                      "examples/**, regimes/*/examples, addons/*/*/examples) x every reference position of its typed document "
@@ -819,12 +1034,14 @@ def replay(path):
         return 0
     build_harness()
     pub = Tables.published(REPO)
-    g = go_run([x["document"]])[0]
+    vo = x.get("flow") == "validate-only"
+    g = go_run([x["document"]], "vrun" if vo else "run")[0]
+    print("flow:           ", "read -> validate (no calculation)" if vo else "parse -> calculate -> validate")
     print("mutation:       ", json.dumps(x.get("mutation")))
     print("implementation: ", [b.decode("utf-8", "replace") if isinstance(b, bytes) else b for b in g[0]])
     if g[2] is not None:
         view = decode_view(g[2])
         m = model_run([g[2]])[0]
         print("model:           repaired rules %s, shipped rules %s, failing (repaired) %s" % (m[0], m[1], sorted(m[2])))
-        print("oracle (published JSON): unresolved %s" % sorted(pub.unresolved(view)))
+        print("oracle (published JSON): unresolved %s" % sorted(pub.unresolved(view_as_written(view, x["document"]) if vo else view)))
     return 0
